@@ -80,7 +80,7 @@ def _atom_relations(p):
         hit = None
         for m in p.t:
             for a, e in m:
-                if e >= 2 and a.kind in ("sqrt", "fabs", "sin"):
+                if e >= 2 and a.kind in ("sqrt", "fabs", "sin", "ind"):
                     hit = a
                     break
             if hit:
@@ -88,6 +88,13 @@ def _atom_relations(p):
         if hit is None:
             return p
         a = hit
+        if a.kind == "ind":
+            out = Poly()
+            for m, c in p.t.items():
+                m2 = tuple((x, (1 if x is a else k)) for x, k in m)
+                out = out + Poly({m2: c})
+            p = out
+            continue
         if a.kind == "sqrt":
             rep = a.key[0]
         elif a.kind == "fabs":
@@ -176,7 +183,7 @@ def _manifestly_positive(p):
     return True
 
 
-def canon(p, depth=0, quats=()):
+def canon(p, depth=0, quats=(), lin=False):
     """Recursive normalisation: arguments of opaque atoms are normalised first (including the reduction modulo
     |q| = 1 when unit quaternions are declared); recip(N/D) becomes D * recip(N)."""
     if depth > 6 or not p.t:
@@ -184,7 +191,7 @@ def canon(p, depth=0, quats=()):
     if all(a.kind == "sym" for a in p.atoms()):
         return reduce_unit(p, quats) if (quats and depth > 0) else p
     from .poly import rebuild
-    qk = tuple(quats)
+    qk = (tuple(quats), lin)
 
     def f(a):
         if a.kind == "sym":
@@ -192,13 +199,21 @@ def canon(p, depth=0, quats=()):
         r = _CANON_MEMO.get((a, qk))
         if r is not None:
             return r
-        newargs = tuple(canon(x, depth + 1, quats) if isinstance(x, Poly) else x for x in a.key)
+        newargs = tuple(canon(x, depth + 1, quats, lin) if isinstance(x, Poly) else x for x in a.key)
         if a.kind == "sqrt":
             # sqrt(N/D) = sqrt(N*D)/D when D is manifestly positive (even powers, positive coefficients, constant > 0)
             q = _atom_relations(newargs[0])
             num, den = split_rational(q)
             if den.const_value() != 1 and _manifestly_positive(den):
                 r = rebuild("sqrt", (_atom_relations(num * den),)) * den.recip()
+                _CANON_MEMO[(a, qk)] = r
+                return r
+        if a.kind == "ite":
+            # if_else(c, x, y) = y + [c] (x - y) with the indicator [c] (idempotent): makes selections linear, so that
+            # sum_k a_k if_else(c, x_k, 0) and if_else(c, sum_k a_k x_k, 0) share a canonical form
+            c_, x_, y_ = newargs
+            if lin and c_.const_value() is None:
+                r = y_ + Poly.atom(Atom("ind", (c_,))) * (x_ - y_)
                 _CANON_MEMO[(a, qk)] = r
                 return r
         if a.kind == "recip":
@@ -225,8 +240,8 @@ def canon(p, depth=0, quats=()):
     return out
 
 
-def normal(p, quats=()):
-    p = canon(p, 0, quats)
+def normal(p, quats=(), lin=False):
+    p = canon(p, 0, quats, lin)
     if quats:
         p = reduce_unit(p, quats)
     return p
@@ -279,6 +294,7 @@ def _decide(p, q, quats):
         a, b = normal(a2, quats), normal(b2, quats)
         if a == b:
             return EQUAL
+    a0, b0 = a, b
     # clear denominators
     depth = 0
     while depth < 4:
@@ -294,6 +310,25 @@ def _decide(p, q, quats):
         a, b = l, r
         if not any(x.kind == "recip" or e < 0 for m in list(a.t) + list(b.t) for x, e in m):
             break
+    # second stage: linearise selections through indicators (bounded: only a handful of if_else atoms)
+    n_ite = len({x for y in (a0, b0) for x in all_atoms(y) if x.kind == "ite"})
+    if 0 < n_ite <= 8:
+        from .poly import WorkExceeded
+        old_work = CFG.work
+        CFG.work = 3000000
+        try:
+            la, lb = normal(a0, quats, True), normal(b0, quats, True)
+            if la == lb:
+                return EQUAL
+            ln_, ld_ = split_rational(la)
+            rn_, rd_ = split_rational(lb)
+            if ld_.const_value() != 1 or rd_.const_value() != 1:
+                if normal(ln_ * rd_, quats, True) == normal(rn_ * ld_, quats, True):
+                    return EQUAL
+        except WorkExceeded:
+            pass
+        finally:
+            CFG.work = old_work
     if has_overflow(a) or has_overflow(b):
         return UNKNOWN
     d = a - b
